@@ -133,7 +133,8 @@ pub fn determinism(seed0: u64) -> (usize, Vec<String>) {
     for config in 0..N_CONFIGS {
         let mut per_seed = vec![];
         for k in 0..6u64 {
-            let seed = seed0.wrapping_mul(7919).wrapping_add(101 + 13 * k + config as u64);
+            // "for all seeds": the special values first (0, 1, all ones), then seeds derived from the run's base seed
+            let seed = match k { 0 => 0u64, 1 => u64::MAX, 2 => 1u64 << 32, _ => seed0.wrapping_mul(7919).wrapping_add(101 + 13 * k + config as u64) };
             let here = digest(config, seed, false);                 // this process
             let again = digest(config, seed, false);                // the same process, again
             let other = child(config, seed, false);                 // a separate OS process
